@@ -37,7 +37,7 @@ def post(cov, cases, recs):
 
 
 def run(tier, seed):
-    pending = matrixcases.bigdiv_cases() + matrixcases.hash_then_use()
+    pending = matrixcases.bigdiv_cases() + matrixcases.hash_then_use() + matrixcases.suppressed_operator_cases(tier)
     return tracecheck.run(PID, tier, seed, PROFILE, oracle, n_quick=len(pending) + 450, n_thorough=len(pending) + 6000, mask=1 | 4 | 32, mutation_oracle=True, post=post,
                           casegen=matrixcases.with_pending(pending, PROFILE),
                           extra_assumptions=["C04_coherent_on_final_witness_partial assumes scoped_cmds (computed and checked true on every case of this run)",
